@@ -203,8 +203,22 @@ def r2(ctx, rep):
     if len(ise) != 1 or len(ide) != 1:
         raise AnchorMissing("impl Serialize/Deserialize for Ident")
     t = show_stmts(ise[0]["body"], maxdepth=8)
-    elems = [show(n["a"][0]) for n in walk(ise[0]["body"]) if n.get("k") == "mcall" and n["m"] == "serialize_element"]
-    rep.check(elems == ["part", "&self.name"] and any(n.get("k") == "for" and show(n["e"]) == "&self.path" for n in walk(ise[0]["body"])), "ident:writer",
+    # two element writes in source order: first every element of self.path (a `for` over it or an iterator adapter on it), then self.name
+    sites = sorted((n for n in walk(ise[0]["body"]) if n.get("k") == "mcall" and n["m"] == "serialize_element"), key=lambda n: (n["l"], n.get("c", 0)))
+    elems = [show(n["a"][0]) for n in sites]
+    import guards as _g
+    par_ = _g.parents(ise[0]["body"])
+
+    def iterates_path(n):
+        cur = n
+        while id(cur) in par_:
+            cur = par_[id(cur)]
+            if cur.get("k") == "for" and "self.path" in show(cur["e"], maxdepth=4):
+                return True
+            if cur.get("k") == "mcall" and cur["m"] in ("try_for_each", "for_each", "try_fold") and "self.path" in show(cur["r"], maxdepth=5):
+                return True
+        return False
+    rep.check(len(sites) == 2 and iterates_path(sites[0]) and elems[1].lstrip("&") == "self.name" and not iterates_path(sites[1]), "ident:writer",
               f"Ident must serialise as the sequence path.. , name; found elements {elems}", file=ise[0]["file"], line=ise[0]["l"], fn=ise[0]["path"])
     rep.check(".map(Ident::from_path)" in show_stmts(ide[0]["body"], maxdepth=10), "ident:reader", "Ident must deserialise from a sequence through from_path (last element = name)", file=ide[0]["file"], line=ide[0]["l"], fn=ide[0]["path"])
     fp = syn.fn("Ident::from_path", crate="prqlc_parser")
@@ -279,7 +293,12 @@ def r4(ctx, rep):
     # JSON functions are plain serde_json of the same types
     for name, fn_, arg in (("from_pl", "serde_json::to_string", "pl"), ("to_pl", "serde_json::from_str", "json"), ("from_rq", "serde_json::to_string", "rq"), ("to_rq", "serde_json::from_str", "json")):
         f = syn.fn("prqlc::json::" + name, crate="prqlc")
-        rep.check(f"{fn_}({arg}).map_err(convert_json_err)" in show_stmts(f["body"], maxdepth=6), f"json:{name}", f"json::{name} must be {fn_}({arg})", file=f["file"], line=f["l"], fn=f["path"])
+        # the value returned is `<serde_json fn>(<the parameter>)` with only its error converted (how the error is converted is free)
+        t = tail_expr(f["body"])
+        while t is not None and t.get("k") == "mcall" and t["m"] in ("map_err",):
+            t = t["r"]
+        prm = [p["name"] for p in f.get("params", []) if isinstance(p, dict) and "name" in p]
+        rep.check(t is not None and show(t) == f"{fn_}({prm[0] if prm else arg})", f"json:{name}", f"json::{name} must be {fn_}(<its argument>)", file=f["file"], line=f["l"], fn=f["path"])
     # error composition: only compile (and prql_to_pl) know the sources
     composed = {"compile": any(c == "composed" for c, _ in comp), "pl_to_rq": any(c == "composed" for c, _ in q), "rq_to_sql": any(c == "composed" for c, _ in r)}
     rep.check(composed["pl_to_rq"] == composed["compile"] and composed["rq_to_sql"] == composed["compile"], "errors-composed",
